@@ -11,7 +11,7 @@ from ..ref import sqf_interp as I
 
 PROPERTY = "C15"
 LEVEL = "model_checking"
-VARIANTS = ["asan"]
+VARIANTS = ["asan", "fast"]
 RULE = ("histories of 1-2 loaded config files: quick = one file of <=2 top-level items (class A/B/C with optional base and one of 12 bodies, forward "
         "declarations); thorough adds 3-item files and two-file histories (2+1 items) over a reduced alphabet (4 bodies) and 1+1 items over the full one; states = distinct reference trees reached, transitions = file loads; for each state all "
         "queries (>> paths x entry names x accessors, inheritsFrom, configHierarchy, count/select) are compared; non-trivial = tree has a base link "
@@ -24,6 +24,7 @@ ASSUMPTIONS = [
     "content is then only judged for own entries",
 ]
 DEADLINE_S = {"quick": 480, "thorough": 1500}
+PREP = {"mode": "prepare", "conf": {"ops": "full"}}     # VM with all operators built once per worker, adopted by each forked case
 
 BODIES = {
     "empty": "",
@@ -63,13 +64,13 @@ def core_items():
     return [i for i in items() if i[0] == "fwd" or i[2] in (None, "A", "B") or (i[2] == "Missing" and i[3] == "x1") or (i[2] == i[1] and i[3] in ("x1", "empty")) or (i[2] == "C" and i[3] == "x1")]
 
 
-def reduced_items(names=("A", "B", "C")):
+def reduced_items(names=("A", "B", "C"), nested=False):
     """Alphabet for longer sequences: the bodies that interact across items (plain value, inherited array, append, delete)."""
     out = []
     for i in core_items():
         if i[1] not in names:
             continue
-        if i[0] == "fwd" or (i[2] in ("A", "B", None) and i[3] in ("x1", "arr+", "delx")) or (i[2] is None and i[3] == "arr") or (i[2] in ("Missing", i[1]) and i[3] == "x1"):
+        if i[0] == "fwd" or (i[2] in ("A", "B", None) and i[3] in ("x1", "arr+", "delx") + (("in-inherit", "in-from-outer") if nested else ())) or (i[2] is None and i[3] == "arr") or (i[2] in ("Missing", i[1]) and i[3] == "x1"):
             out.append(i)
     return out
 
@@ -87,7 +88,7 @@ def gen(nitems, nfiles):
 
 
 def gen_three():
-    red = reduced_items()
+    red = reduced_items(nested=True)
     for seq in itertools.product(red, repeat=3):
         yield [[list(i) for i in seq]]
 
@@ -346,7 +347,7 @@ def termination_queries():
     return qs
 
 
-def check(ws, files):
+def check(ws, files, variant="asan"):
     texts = [" ".join(render_item(tuple(i)) for i in f) for f in files]
     try:
         root = build_ref(files)
@@ -358,9 +359,9 @@ def check(ws, files):
         qs = termination_queries() + acyclic_queries()
     # fast path: all queries in one script (one diag_log per query, tagged with its index); if it does not produce every
     # answer (a query raised an error and ended the script, crashed or hung) the queries are run one by one below
-    head = [{"op": "vm", "id": 0}] + [{"op": "config", "id": 0, "text": t, "preprocess": False} for t in texts]
+    head = [{"op": "vm", "id": 0, "template": True}] + [{"op": "config", "id": 0, "text": t, "preprocess": False} for t in texts]
     one = ";\n".join("diag_log str [%d, %s]" % (k, ex) for k, (lab, ex, want) in enumerate(qs))
-    r = ws.call({"mode": "steps", "fork": True, "timeout_ms": 15000, "steps": head + [{"op": "sqf", "id": 0, "text": one}, {"op": "exec", "id": 0, "action": "start"}]}, variant="asan")
+    r = ws.call({"mode": "steps", "fork": True, "timeout_ms": 15000, "steps": head + [{"op": "sqf", "id": 0, "text": one}, {"op": "exec", "id": 0, "action": "start"}]}, variant=variant, prepare=PREP)
     fast = None
     if r["outcome"] == "ok":
         outs = {}
@@ -379,7 +380,7 @@ def check(ws, files):
             steps.append({"op": "sqf", "id": 0, "text": "diag_log str [%s]" % ex})
             steps.append({"op": "exec", "id": 0, "action": "start"})
             steps.append({"op": "exec", "id": 0, "action": "abort"})
-        r = ws.call({"mode": "steps", "fork": True, "timeout_ms": 15000, "steps": steps}, variant="asan")
+        r = ws.call({"mode": "steps", "fork": True, "timeout_ms": 15000, "steps": steps}, variant=variant, prepare=PREP)
     nontrivial = 1 if any(n.base or getattr(n, "reopened", False) for n in all_nodes(root)) or not root.entries else 0
     info = {"n": 1, "nontrivial": nontrivial, "states": 1, "transitions": len(files), "executions": 1, "queries": len(qs)}
     feat = features(files)
@@ -388,7 +389,7 @@ def check(ws, files):
         culprit = "load"
         for k, (lab, ex, want) in enumerate(qs):
             st = steps[:1 + len(texts)] + [{"op": "sqf", "id": 0, "text": "diag_log str [%s]" % ex}, {"op": "exec", "id": 0, "action": "start"}]
-            r1 = ws.call({"mode": "steps", "fork": True, "timeout_ms": 5000, "steps": st}, variant="asan")
+            r1 = ws.call({"mode": "steps", "fork": True, "timeout_ms": 5000, "steps": st}, variant=variant, prepare=PREP)
             if r1["outcome"] != "ok":
                 culprit = lab.split(" ")[0]
                 r = r1
@@ -417,6 +418,11 @@ def check(ws, files):
         if not ok:
             return [("C15|%s|%s" % (lab.split(" ")[0], feat), "config %r: %s = %r, reference %r" % (texts, ex, got, want), None, files)], info
     return [], info
+
+
+def check_fast(ws, files):
+    """Same oracle on the -O2 build without sanitizers (5x the throughput): used for the large thorough spaces."""
+    return check(ws, files, "fast")
 
 
 def all_nodes(n):
@@ -456,5 +462,5 @@ def spaces(tier):
         return [Space("one-file", gen(2, 1), check, variant="asan", describe="one file with <=2 top-level items"),
                 ]
     return [Space("one-file", gen(2, 1), check, variant="asan", describe="one file with <=2 top-level items over the full item alphabet"),
-            Space("one-file-3-items", gen_three, check, variant="asan", describe="one file with 3 top-level items over the reduced alphabet (bodies: value, array, append, delete; all base kinds)"),
-            Space("two-files", gen_two_files, check, variant="asan", describe="two files: one item each over the full alphabet; two items then one item over the reduced alphabet for names A, B")]
+            Space("one-file-3-items", gen_three, check_fast, variant="fast", describe="one file with 3 top-level items over the reduced alphabet (bodies: value, array, append, delete, nested classes inheriting; all base kinds)"),
+            Space("two-files", gen_two_files, check_fast, variant="fast", describe="two files: one item each over the full alphabet; two items then one item over the reduced alphabet for names A, B")]
